@@ -1,46 +1,61 @@
 import Glom.Spec.C15
-import Glom.Generated.RegFacts
+import Glom.Model.C13Env
 import Glom.Generated.ExcFacts
 import Glom.Generated.RedFacts
 /-
   The environment of C15 instantiated with the facts regenerated from /repo:
-  default `iterate` registrations, `_AbstractIterable`'s exclusions, the
-  `except` clause of Fold.glomit, the exception MROs, and the source-shape
-  facts of glom/reduction.py.  The classes of the harness (Acc, generator,
-  chain, Obj) are fixed.
+  the `except` clauses of Fold.glomit and target_iter, the exception MROs, the
+  source-shape facts of glom/reduction.py and grouping.target_iter, and — shared
+  with C13 — the registration sequences of `TargetRegistry.__init__` /
+  `_register_default_types` from which the registry every history starts is built.
+  The class hierarchy (`Hier`: `__mro__`, `isinstance`, `issubclass`, the
+  auto-discovery functions) of the builtins and of the harness classes comes with
+  each case (Python's own answers, as in C13).
 -/
 namespace Glom.C15
 open Glom
 
-def userClasses : ClassTable :=
-  [("Acc", ["Acc", "list", "object"]), ("generator", ["generator", "object"]),
-   ("chain", ["chain", "object"]), ("Obj", ["Obj", "object"])]
-
+/-- the conversions of exceptions, as extracted; the handler table is filled in per call -/
 def genEnv : Env :=
-  { ct := userClasses ++ Generated.targetClassTable
-    iterReg := Generated.defaultReg_iterate
-    absIterExcluded := Generated.redAbsIterExcluded
+  { lk := fun _ => .error .unregistered
     foldCatch := Generated.redFoldCatch
+    iterCatch := Generated.redTargetIterCatch
     excTable := Generated.excTable }
 
-/-- the environment the PROPERTY is stated in: the documented behaviour, hard-coded (the
-    values `WF` demands of the extracted facts).  The correspondence driver evaluates the
-    checker with this environment on the implementation's observation, so a change of
-    /repo that alters one of these facts yields a concrete failing input, not only a
-    failing facts obligation. -/
+/-- the registry a process (the module-level default registry, a `Glommer()`) starts from, as far
+    as the `iterate` / `get` columns go: `TargetRegistry(register_default_types=True)` built from
+    the extracted registration sequences -/
+def genReg (H : Hier) : Reg := C13.freshReg H C13.genSetup true
+
+/-- the environment the PROPERTY is stated in: the documented behaviour, hard-coded.  The
+    correspondence driver evaluates the checker with this environment (and `specReg`) on the
+    implementation's observation, so a change of /repo that alters one of these facts yields a
+    concrete failing input, not only a failing facts obligation. -/
 def specEnv : Env :=
-  { ct := userClasses ++ [("object", ["object"]), ("dict", ["dict", "object"]),
-      ("OrderedDict", ["OrderedDict", "dict", "object"]), ("list", ["list", "object"]),
-      ("tuple", ["tuple", "object"]), ("str", ["str", "object"]), ("int", ["int", "object"]),
-      ("bool", ["bool", "int", "object"]), ("NoneType", ["NoneType", "object"])]
-    iterReg := [("object", "False"), ("dict", "iter"), ("list", "iter"), ("tuple", "iter"),
-      ("OrderedDict", "iter"), ("_AbstractIterable", "iter")]
-    absIterExcluded := ["str", "bytes"]
+  { lk := fun _ => .error .unregistered
     foldCatch := [("UnregisteredTarget", "FoldError")]
+    iterCatch := [("Exception", "TypeError")]
     excTable := [("FoldError", ["FoldError", "GlomError", "Exception", "BaseException", "object"]),
       ("PathAccessError", ["PathAccessError", "GlomError", "AttributeError", "KeyError", "IndexError",
         "LookupError", "Exception", "BaseException", "object"]),
       ("UnregisteredTarget", ["UnregisteredTarget", "GlomError", "Exception", "BaseException", "object"])] }
+
+/-- the documented default registrations: `iterate` auto-discovered from `__iter__`, `get` = getattr;
+    object, dict, list, tuple, OrderedDict, `_AbstractIterable` (iterate=iter), `_ObjStyleKeys` -/
+def specSetup : C13.Setup where
+  builtinOps := [⟨"iterate", "auto_iterate", false⟩, ⟨"get", "auto_get", false⟩]
+  defaults := [
+    ⟨"object", false, []⟩,
+    ⟨"dict", false, [("get", some "getitem")]⟩, ⟨"dict", false, [("keys", some "dict.keys")]⟩,
+    ⟨"list", false, [("get", some "_get_sequence_item")]⟩,
+    ⟨"tuple", false, [("get", some "_get_sequence_item")]⟩,
+    ⟨"OrderedDict", false, [("get", some "getitem")]⟩,
+    ⟨"OrderedDict", false, [("keys", some "OrderedDict.keys")]⟩,
+    ⟨"_AbstractIterable", false, [("iterate", some "iter")]⟩,
+    ⟨"_ObjStyleKeys", false, [("keys", some "_ObjStyleKeys.get_keys")]⟩]
+  moduleOps := []
+
+def specReg (H : Hier) : Reg := C13.freshReg H specSetup true
 
 def genSrc : SrcFacts :=
   { initCalls := Generated.redInitCalls
@@ -49,7 +64,10 @@ def genSrc : SrcFacts :=
     ctorLogic := Generated.redCtorLogic
     foldBodies := Generated.redFoldBodies
     flattenFn := Generated.redFlattenFn
-    mergeFn := Generated.redMergeFn }
+    mergeFn := Generated.redMergeFn
+    targetIter := Generated.redTargetIter
+    absIterExcluded := Generated.redAbsIterExcluded
+    registerResetsMemo := Generated.c13RegisterResetsMemo }
 
 /-- the default of a constructor / function parameter, as source text -/
 def defaultSrc (cls param : String) : Option String :=
